@@ -2,7 +2,8 @@
 C11 — Bump arena: disjoint, aligned, in-bounds blocks; reset and grow behave.
 
 Property theorems about `Model/Bump.lean` (the arena of `src/arena/bump.rs` with the D-11 fix:
-the absolute address is aligned).  All statements are for arbitrary arenas / requests / histories;
+the absolute address is aligned; and `ArenaString` of `src/arena/string.rs` over std's `RawVec`,
+section "strings").  All statements are for arbitrary arenas / requests / histories;
 nothing is bounded.  The constants come from `Gen/Arena.lean` (re-extracted from /repo every run).
 -/
 import NaijaVerif.Model.Bump
@@ -415,6 +416,8 @@ structure BlockOk (a : Arena) (b : Block) : Prop where
   inb     : b.beg + b.len ≤ a.offset
   aligned : b.align ∣ a.base + b.beg
   content : ∀ k, k < b.len → a.mem (b.beg + k) = b.data k
+  /-- a vector living in the block never claims more than the block (`len ≤ capacity`) -/
+  usedLe  : b.used ≤ b.len
 
 structure Good (s : St) : Prop where
   inv    : s.a.Inv
@@ -424,7 +427,7 @@ structure Good (s : St) : Prop where
 theorem BlockOk.frame {a a' : Arena} {b : Block} (h : BlockOk a b) (hb : a'.base = a.base)
     (ho : b.beg + b.len ≤ a'.offset) (hm : ∀ i, i < b.beg + b.len → a'.mem i = a.mem i) :
     BlockOk a' b :=
-  ⟨h.apos, ho, by rw [hb]; exact h.aligned, fun k hk => (hm _ (by omega)).trans (h.content k hk)⟩
+  ⟨h.apos, ho, by rw [hb]; exact h.aligned, fun k hk => (hm _ (by omega)).trans (h.content k hk), h.usedLe⟩
 
 theorem init_good (base capacity : Nat) : Good (St.init base capacity) :=
   ⟨(new_spec base capacity).1, by simp [St.init], by simp [St.init]⟩
@@ -439,7 +442,7 @@ theorem good_alloc (s : St) (hG : Good s) (id bytes align beg : Nat) (a' : Arena
   · intro b hb
     simp only [List.mem_cons] at hb
     rcases hb with rfl | hb
-    · exact ⟨ha, by dsimp only; omega, by simp only [h1]; exact h8, fun _ _ => rfl⟩
+    · exact ⟨ha, by dsimp only; omega, by simp only [h1]; exact h8, fun _ _ => rfl, Nat.zero_le _⟩
     · have hb' := hG.blocks b hb
       exact hb'.frame h1 (by have := hb'.inb; show b.beg + b.len ≤ a'.offset; omega)
         (fun i hi => h12 i (by have := hb'.inb; omega))
@@ -449,99 +452,392 @@ theorem good_alloc (s : St) (hG : Good s) (id bytes align beg : Nat) (a' : Arena
     have := (hG.blocks c hc).inb
     unfold Disj; dsimp only; omega
 
-/-- Every operation preserves the client-visible invariant. -/
-theorem step_good (s : St) (op : Op) (hG : Good s) : Good (step s op) := by
-  cases op with
-  | alloc id bytes align zeroed =>
-    simp only [step]
+theorem good_allocBlk (s : St) (hG : Good s) (id bytes align : Nat) (zeroed : Bool) :
+    Good (s.allocBlk id bytes align zeroed) := by
+  simp only [St.allocBlk]
+  split
+  · exact hG
+  · rename_i hal
+    have ha : 0 < align := Nat.pos_of_ne_zero hal
     split
     · exact hG
-    · rename_i hal
-      have ha : 0 < align := Nat.pos_of_ne_zero hal
-      split
-      · exact hG
-      · rename_i beg a' h
-        cases zeroed with
-        | false =>
-          simp only [Bool.false_eq_true, if_false] at h
-          obtain ⟨i1, i2, _, _, _, i6, _, i8, i9, _, _, i12⟩ := alloc_ok _ _ _ _ _ hG.inv ha h
-          exact good_alloc s hG id bytes align beg a' ha i2 i1 i6 i8 i9 i12
-        | true =>
-          simp only [if_true] at h
-          obtain ⟨i1, i2, _, _, _, i6, _, i8, i9, _, _, i12, _⟩ := allocZeroed_ok _ _ _ _ _ hG.inv ha h
-          exact good_alloc s hG id bytes align beg a' ha i2 i1 i6 i8 i9 i12
-  | grow id newSize =>
-    simp only [step]
+    · rename_i beg a' h
+      cases zeroed with
+      | false =>
+        simp only [Bool.false_eq_true, if_false] at h
+        obtain ⟨i1, i2, _, _, _, i6, _, i8, i9, _, _, i12⟩ := alloc_ok _ _ _ _ _ hG.inv ha h
+        exact good_alloc s hG id bytes align beg a' ha i2 i1 i6 i8 i9 i12
+      | true =>
+        simp only [if_true] at h
+        obtain ⟨i1, i2, _, _, _, i6, _, i8, i9, _, _, i12, _⟩ := allocZeroed_ok _ _ _ _ _ hG.inv ha h
+        exact good_alloc s hG id bytes align beg a' ha i2 i1 i6 i8 i9 i12
+
+theorem good_growBlk (s : St) (hG : Good s) (id newSize : Nat) : Good (s.growBlk id newSize) := by
+  simp only [St.growBlk]
+  split
+  · exact hG
+  · rename_i b hf
+    have hbm := findBlk_mem hf
+    have hb := hG.blocks b hbm
     split
     · exact hG
-    · rename_i b hf
-      have hbm := findBlk_mem hf
-      have hb := hG.blocks b hbm
+    · rename_i hsz
       split
       · exact hG
-      · rename_i hsz
-        split
-        · exact hG
-        · rename_i nb a' h
-          have ha : 0 < b.align := hb.apos
-          obtain ⟨i1, i2, _, _, i5, i6, i7, i8, _, _, i11, i12⟩ :=
-            grow_ok _ _ _ _ _ _ _ hG.inv ha hb.inb hb.aligned (by omega) h
-          refine ⟨i1, ?_, ?_⟩
-          · intro c hc
-            simp only [List.mem_cons] at hc
-            rcases hc with rfl | hc
-            · refine ⟨ha, by dsimp only; omega, by simp only [i2]; exact i7, ?_⟩
-              intro k hk
+      · rename_i nb a' h
+        have ha : 0 < b.align := hb.apos
+        obtain ⟨i1, i2, _, _, i5, i6, i7, i8, _, _, i11, i12⟩ :=
+          grow_ok _ _ _ _ _ _ _ hG.inv ha hb.inb hb.aligned (by omega) h
+        refine ⟨i1, ?_, ?_⟩
+        · intro c hc
+          simp only [List.mem_cons] at hc
+          rcases hc with rfl | hc
+          · refine ⟨ha, by dsimp only; omega, by simp only [i2]; exact i7, ?_, ?_⟩
+            · intro k hk
               simp only []
               split
               · rename_i hk'
                 rw [i12 k hk']; exact hb.content k hk'
               · rfl
-            · have hc' := hG.blocks c (mem_dropBlk hc)
-              have := hc'.inb
-              exact hc'.frame i2 (by show c.beg + c.len ≤ a'.offset; omega) (fun i hi => i11 i (by omega))
-          · simp only [List.pairwise_cons]
-            refine ⟨?_, pairwise_dropBlk id hG.disj⟩
-            intro c hc
-            have hd : Disj b c := rel_found_dropped disj_symm hG.disj hf hc
-            have hci := (hG.blocks c (mem_dropBlk hc)).inb
-            have hbi := hb.inb
-            unfold Disj at hd ⊢
+            · have := hb.usedLe
+              dsimp only; omega
+          · have hc' := hG.blocks c (mem_dropBlk hc)
+            have := hc'.inb
+            exact hc'.frame i2 (by show c.beg + c.len ≤ a'.offset; omega) (fun i hi => i11 i (by omega))
+        · simp only [List.pairwise_cons]
+          refine ⟨?_, pairwise_dropBlk id hG.disj⟩
+          intro c hc
+          have hd : Disj b c := rel_found_dropped disj_symm hG.disj hf hc
+          have hci := (hG.blocks c (mem_dropBlk hc)).inb
+          have hbi := hb.inb
+          unfold Disj at hd ⊢
+          simp only []
+          by_cases ht : b.beg + b.len = s.a.offset
+          · have := i5 ht; omega
+          · have := i6 ht; omega
+
+theorem good_shrinkBlk (s : St) (hG : Good s) (id newSize : Nat) : Good (s.shrinkBlk id newSize) := by
+  simp only [St.shrinkBlk]
+  split
+  · exact hG
+  · rename_i b hf
+    have hbm := findBlk_mem hf
+    have hb := hG.blocks b hbm
+    split
+    · rename_i hleg
+      obtain ⟨_, s2, s3, s4, s5, _, _⟩ := shrink_tail s.a b.beg b.len newSize hG.inv hleg.2.1 hleg.1
+      refine ⟨s3, ?_, ?_⟩
+      · intro c hc
+        simp only [List.mem_cons] at hc
+        rcases hc with rfl | hc
+        · refine ⟨hb.apos, by dsimp only; omega, by simp only [s5]; exact hb.aligned, ?_, hleg.2.2⟩
+          intro k hk
+          simp only [] at hk ⊢
+          rw [s4]; exact hb.content k (by omega)
+        · rw [mem_below] at hc
+          have hc' := hG.blocks c (mem_dropBlk hc.1)
+          exact hc'.frame s5 hc.2 (fun i _ => by rw [s4])
+      · simp only [List.pairwise_cons]
+        refine ⟨?_, pairwise_below _ (pairwise_dropBlk id hG.disj)⟩
+        intro c hc
+        rw [mem_below] at hc
+        have hd : Disj b c := rel_found_dropped disj_symm hG.disj hf hc.1
+        have := hc.2
+        unfold Disj at hd ⊢
+        simp only []
+        omega
+    · exact hG
+
+
+/-! ### strings: `ArenaString` = `Vec<u8, &Arena>` (src/arena/string.rs)
+
+The string whose buffer is block `id` has capacity `b.len`, length `b.used` and bytes
+`b.data 0 … b.data (b.used - 1)`; a string without a buffer has capacity and length 0.  Its
+operations reserve through `strEnsure` (`Allocator::allocate` / `grow`) and then write THROUGH THE
+BUFFER POINTER (`strWrite`), which no definition confines to the block. -/
+
+/-- std's growth policy as observed on the compiled crate (`nvh dump-tables` drives
+`Vec::<u8,&Arena>::reserve` / `reserve_exact` over a grid of capacities, lengths and requests) is
+the model's closed form. -/
+theorem gen_reserve_policy :
+    Gen.Arena.reserveProbe.all (fun r =>
+      reserveCap r.1 r.2.1 r.2.2.1 == r.2.2.2.1 && reserveExactCap r.1 r.2.1 r.2.2.1 == r.2.2.2.2) = true ∧
+    200 ≤ Gen.Arena.reserveProbe.length := by decide +kernel
+
+/-- `Vec::reserve` keeps its promise: afterwards `additional` more bytes fit behind the LENGTH; it
+never lowers the capacity and does nothing when the spare room suffices. -/
+theorem reserveCap_spec (cap len additional : Nat) :
+    cap ≤ reserveCap cap len additional ∧ (len ≤ cap → len + additional ≤ reserveCap cap len additional) ∧
+    (additional ≤ cap - len → reserveCap cap len additional = cap) := by
+  unfold reserveCap
+  split <;> omega
+
+theorem reserveExactCap_spec (cap len additional : Nat) (h : len ≤ cap) :
+    cap ≤ reserveExactCap cap len additional ∧ len + additional ≤ reserveExactCap cap len additional ∧
+    (additional ≤ cap - len → reserveExactCap cap len additional = cap) ∧
+    (cap - len < additional → reserveExactCap cap len additional = len + additional) := by
+  unfold reserveExactCap
+  split <;> omega
+
+/-- What `vec_replace_impl` needs of its reserve request: the result fits the capacity afterwards. -/
+def RuleFits (rule : Nat → Nat → Nat → Nat → Nat) : Prop :=
+  ∀ cap len del srcLen, len ≤ cap → del ≤ len → len - del + srcLen ≤ reserveCap cap len (rule cap len del srcLen)
+
+/-- The pinned code asks for `src_len - del_len` more bytes behind the length: enough. -/
+theorem pinnedRule_fits : RuleFits pinnedRule := by
+  intro cap len del srcLen h1 h2
+  have := (reserveCap_spec cap len (srcLen - del)).2.1 h1
+  unfold pinnedRule
+  omega
+
+/-- Seeded change C11-c2 (`reserve(new_len - capacity)`): NOT enough — capacity 16, length 10, one
+byte replaced by nine: the result has 18 bytes, `reserve(2)` finds 6 spare bytes and does nothing. -/
+theorem seededRule_does_not_fit : ¬ RuleFits seededRule := by
+  intro h
+  have := h 16 10 1 9 (by decide) (by decide)
+  revert this
+  decide
+
+example : reserveCap 16 10 (seededRule 16 10 1 9) = 16 ∧ reserveCap 16 10 (pinnedRule 16 10 1 9) = 32 ∧
+    reserveCap 16 15 (seededRule 16 15 0 45) = 59 ∧ reserveCap 0 0 5 = 8 ∧ reserveExactCap 16 10 7 = 17 := by
+  decide
+
+/-- `len ≤ capacity` is part of the invariant. -/
+theorem good_dims (s : St) (hG : Good s) (id : Nat) : (strDims s id).2 ≤ (strDims s id).1 := by
+  unfold strDims
+  split
+  · rename_i b hf; exact (hG.blocks b (findBlk_mem hf)).usedLe
+  · exact Nat.le_refl _
+
+/-! #### reserving -/
+
+/-- `strEnsure` (= `RawVec::finish_grow`) succeeded: the invariant holds, the string has a buffer of
+exactly the capacity asked for (or keeps its larger one) — that block is the one the arena handed
+out —, its length and every byte of the old buffer are preserved. -/
+theorem strEnsure_spec (s : St) (hG : Good s) (id newCap : Nat) (s1 : St)
+    (h : strEnsure s id newCap = some s1) :
+    Good s1 ∧ strDims s1 id = (max (strDims s id).1 newCap, (strDims s id).2) ∧
+    (∀ b b1, findBlk s.live id = some b → findBlk s1.live id = some b1 → ∀ k, k < b.len → b1.data k = b.data k) ∧
+    (findBlk s.live id = none → newCap = 0 → s1 = s) := by
+  unfold strEnsure at h
+  split at h
+  · rename_i hf
+    split at h
+    · rename_i h0
+      cases h
+      refine ⟨hG, ?_, ?_, fun _ _ => rfl⟩
+      · rw [strDims_none s id hf, h0]; rfl
+      · intro b b1 h1; rw [hf] at h1; cases h1
+    · rename_i h0
+      split at h
+      · rename_i hs
+        cases h
+        refine ⟨good_allocBlk s hG id newCap 1 false, ?_, ?_, fun _ h00 => absurd h00 h0⟩
+        · rw [strDims_none s id hf]
+          simp only [St.allocBlk]
+          rw [if_neg (by decide)]
+          simp only [Bool.false_eq_true, if_false]
+          split
+          · rename_i hn; rw [hn] at hs; cases hs
+          · rename_i beg a' ha
+            rw [strDims_of _ id _ (findBlk_cons_self _ _)]
+            simp
+        · intro b b1 h1; rw [hf] at h1; cases h1
+      · cases h
+  · rename_i b hf
+    split at h
+    · rename_i hle
+      cases h
+      refine ⟨hG, ?_, ?_, fun hn => by rw [hf] at hn; cases hn⟩
+      · rw [strDims_of s id b hf]; simp only []; rw [Nat.max_eq_left hle]
+      · intro b' b1 h1 h2; rw [h1] at h2; cases h2; intro _ _; rfl
+    · rename_i hgt
+      split at h
+      · rename_i hs
+        cases h
+        refine ⟨good_growBlk s hG id newCap, ?_, ?_, fun hn => by rw [hf] at hn; cases hn⟩
+        · rw [strDims_of s id b hf]
+          simp only [St.growBlk, hf]
+          rw [if_neg (by omega)]
+          split
+          · rename_i hn; rw [hn] at hs; cases hs
+          · rename_i nb a' hg
+            have := findBlk_cons_self
+              { id := id, beg := nb, len := newCap, align := b.align,
+                data := fun k => if k < b.len then b.data k else a'.mem (nb + k), used := b.used }
+              (dropBlk s.live id)
+            rw [strDims_of _ id _ this]
             simp only []
-            by_cases ht : b.beg + b.len = s.a.offset
-            · have := i5 ht; omega
-            · have := i6 ht; omega
-  | shrink id newSize =>
-    simp only [step]
+            rw [Nat.max_eq_right (by omega)]
+        · intro b' b1 h1 h2
+          rw [hf] at h1; cases h1
+          simp only [St.growBlk, hf] at h2
+          rw [if_neg (by omega)] at h2
+          split at h2
+          · rename_i hn; rw [hn] at hs; cases hs
+          · rename_i nb a' hg
+            have := findBlk_cons_self
+              { id := id, beg := nb, len := newCap, align := b.align,
+                data := fun k => if k < b.len then b.data k else a'.mem (nb + k), used := b.used }
+              (dropBlk s.live id)
+            simp only [] at this
+            rw [this] at h2
+            cases h2
+            intro k hk
+            simp [hk]
+      · cases h
+
+/-- Clean failure of a reservation: it fails **iff** the new buffer (the extension, for the tail
+block) does not fit the arena — `Vec::reserve` then calls `handle_alloc_error` and nothing was written. -/
+theorem strEnsure_none_iff (s : St) (hG : Good s) (id newCap : Nat) :
+    strEnsure s id newCap = none ↔
+      (match findBlk s.live id with
+       | none => newCap ≠ 0 ∧ s.a.cap < s.a.offset + newCap
+       | some b => b.len < newCap ∧
+           (if b.beg + b.len = s.a.offset then s.a.cap < s.a.offset + (newCap - b.len)
+            else s.a.cap < s.a.absBeg b.align + newCap)) := by
+  unfold strEnsure
+  cases hf : findBlk s.live id with
+  | none =>
+    have e : s.a.absBeg 1 = s.a.offset := by unfold Arena.absBeg; rw [alignUp_one]; omega
+    have h1 := alloc_err_iff s.a newCap 1 hG.inv
+    rw [e] at h1
+    by_cases h0 : newCap = 0
+    · simp [h0]
+    · cases ha : s.a.alloc newCap 1 with
+      | none => simp [h0, ← h1, ha]
+      | some r => simp [h0, ← h1, ha]
+  | some b =>
+    have h1 := grow_err_iff s.a b.beg b.len newCap b.align hG.inv
+    by_cases h0 : newCap ≤ b.len
+    · simp [h0]; omega
+    · cases hg : s.a.grow b.beg b.len newCap b.align with
+      | none => simp [h0, ← h1, hg]; omega
+      | some r => simp [h0, ← h1, hg]
+
+
+/-! #### writing through the buffer pointer -/
+
+/-- A raw write by the owner of buffer `id` keeps the invariant **provided** it stays inside the
+block and the new length does not exceed the capacity — the proof obligation of the unsafe code. -/
+theorem good_strWrite (s : St) (hG : Good s) (id : Nat) (w : Nat → Mem → Mem) (used' : Nat)
+    (h : ∀ b, findBlk s.live id = some b →
+      used' ≤ b.len ∧ ∀ i, (i < b.beg ∨ b.beg + b.len ≤ i) → w b.beg s.a.mem i = s.a.mem i) :
+    Good (strWrite s id w used') := by
+  unfold strWrite
+  split
+  · exact hG
+  · rename_i b hf
+    obtain ⟨hu, hm⟩ := h b hf
+    have hb := hG.blocks b (findBlk_mem hf)
+    refine ⟨⟨hG.inv.offLe, hG.inv.commitLe, hG.inv.commitCh, hG.inv.capCh⟩, ?_, ?_⟩
+    · intro c hc
+      simp only [List.mem_cons] at hc
+      rcases hc with rfl | hc
+      · exact ⟨hb.apos, hb.inb, hb.aligned, fun _ _ => rfl, hu⟩
+      · have hc' := hG.blocks c (mem_dropBlk hc)
+        have hd : Disj b c := rel_found_dropped disj_symm hG.disj hf hc
+        refine ⟨hc'.apos, hc'.inb, hc'.aligned, ?_, hc'.usedLe⟩
+        intro k hk
+        unfold Disj at hd
+        show w b.beg s.a.mem (c.beg + k) = c.data k
+        rw [hm _ (by omega)]
+        exact hc'.content k hk
+    · simp only [List.pairwise_cons]
+      refine ⟨?_, pairwise_dropBlk id hG.disj⟩
+      intro c hc
+      have hd : Disj b c := rel_found_dropped disj_symm hG.disj hf hc
+      unfold Disj at hd ⊢
+      simp only []
+      omega
+
+/-! #### every string operation preserves the invariant -/
+
+theorem good_strReserve (s : St) (hG : Good s) (id additional : Nat) (exact : Bool) :
+    Good (s.strReserve id additional exact) := by
+  unfold St.strReserve
+  simp only []
+  split
+  · exact hG
+  · rename_i s1 h; exact (strEnsure_spec s hG id _ s1 h).1
+
+theorem good_strPush (s : St) (hG : Good s) (id : Nat) (src : List Nat) : Good (s.strPush id src) := by
+  unfold St.strPush
+  simp only []
+  split
+  · exact hG
+  · rename_i s1 h
+    obtain ⟨hG1, hd, _, _⟩ := strEnsure_spec s hG id _ s1 h
+    apply good_strWrite s1 hG1
+    intro b1 hf1
+    rw [strDims_of s1 id b1 hf1] at hd
+    have hle := good_dims s hG id
+    have hr := (reserveCap_spec (strDims s id).1 (strDims s id).2 src.length).2.1 hle
+    have h1 : b1.len = max (strDims s id).1 (reserveCap (strDims s id).1 (strDims s id).2 src.length) :=
+      congrArg Prod.fst hd
+    refine ⟨by omega, ?_⟩
+    intro i hi
+    simp only [Mem.store]
+    split
+    · omega
+    · rfl
+
+/-- `vec_replace_impl` with ANY reserve request that satisfies `RuleFits` keeps the invariant. -/
+theorem good_strReplaceWith (rule : Nat → Nat → Nat → Nat → Nat) (hr : RuleFits rule) (s : St) (hG : Good s)
+    (id lo hi : Nat) (src : List Nat) : Good (s.strReplaceWith rule id lo hi src) := by
+  unfold St.strReplaceWith
+  simp only []
+  split
+  · exact hG
+  · split
+    · exact hG
+    · rename_i s1 h
+      obtain ⟨hG1, hd, _, _⟩ := strEnsure_spec s hG id _ s1 h
+      apply good_strWrite s1 hG1
+      intro b1 hf1
+      rw [strDims_of s1 id b1 hf1] at hd
+      have hle := good_dims s hG id
+      have h1 : b1.len = max (strDims s id).1 _ := congrArg Prod.fst hd
+      generalize (strDims s id).1 = cap at *
+      generalize (strDims s id).2 = len at *
+      have hfit := hr cap len (min (hi - min lo len) (len - min lo len)) src.length hle (by omega)
+      refine ⟨by omega, ?_⟩
+      intro i hi
+      simp only [Mem.store, Mem.copy]
+      split
+      · omega
+      · split
+        · omega
+        · rfl
+
+theorem good_strShrink (s : St) (hG : Good s) (id : Nat) : Good (s.strShrink id) := by
+  unfold St.strShrink
+  split
+  · exact hG
+  · rename_i b hf
     split
     · exact hG
-    · rename_i b hf
-      have hbm := findBlk_mem hf
-      have hb := hG.blocks b hbm
-      split
-      · rename_i hleg
-        obtain ⟨_, s2, s3, s4, s5, _, _⟩ := shrink_tail s.a b.beg b.len newSize hG.inv hleg.2 hleg.1
-        refine ⟨s3, ?_, ?_⟩
+    · split
+      · rename_i hu
+        have hb := hG.blocks b (findBlk_mem hf)
+        refine ⟨hG.inv, ?_, ?_⟩
         · intro c hc
           simp only [List.mem_cons] at hc
           rcases hc with rfl | hc
-          · refine ⟨hb.apos, by dsimp only; omega, by simp only [s5]; exact hb.aligned, ?_⟩
-            intro k hk
-            simp only [] at hk ⊢
-            rw [s4]; exact hb.content k (by omega)
-          · rw [mem_below] at hc
-            have hc' := hG.blocks c (mem_dropBlk hc.1)
-            exact hc'.frame s5 hc.2 (fun i _ => by rw [s4])
+          · have := hb.inb
+            exact ⟨hb.apos, by show b.beg + 0 ≤ s.a.offset; omega, hb.aligned,
+              fun k hk => absurd hk (Nat.not_lt_zero _), by show b.used ≤ 0; omega⟩
+          · exact hG.blocks c (mem_dropBlk hc)
         · simp only [List.pairwise_cons]
-          refine ⟨?_, pairwise_below _ (pairwise_dropBlk id hG.disj)⟩
-          intro c hc
-          rw [mem_below] at hc
-          have hd : Disj b c := rel_found_dropped disj_symm hG.disj hf hc.1
-          have := hc.2
-          unfold Disj at hd ⊢
-          simp only []
-          omega
-      · exact hG
+          exact ⟨fun c _ => Or.inl rfl, pairwise_dropBlk id hG.disj⟩
+      · exact good_shrinkBlk s hG id b.used
+
+/-- Every operation preserves the client-visible invariant. -/
+theorem step_good (s : St) (op : Op) (hG : Good s) : Good (step s op) := by
+  cases op with
+  | alloc id bytes align zeroed => exact good_allocBlk s hG id bytes align zeroed
+  | grow id newSize => exact good_growBlk s hG id newSize
+  | shrink id newSize => exact good_shrinkBlk s hG id newSize
   | store id f =>
     simp only [step]
     split
@@ -553,7 +849,7 @@ theorem step_good (s : St) (op : Op) (hG : Good s) : Good (step s op) := by
       · intro c hc
         simp only [List.mem_cons] at hc
         rcases hc with rfl | hc
-        · refine ⟨hb.apos, hb.inb, hb.aligned, ?_⟩
+        · refine ⟨hb.apos, hb.inb, hb.aligned, ?_, hb.usedLe⟩
           intro k hk
           simp only [Mem.store] at hk ⊢
           split
@@ -561,7 +857,7 @@ theorem step_good (s : St) (op : Op) (hG : Good s) : Good (step s op) := by
           · omega
         · have hc' := hG.blocks c (mem_dropBlk hc)
           have hd : Disj b c := rel_found_dropped disj_symm hG.disj hf hc
-          refine ⟨hc'.apos, hc'.inb, hc'.aligned, ?_⟩
+          refine ⟨hc'.apos, hc'.inb, hc'.aligned, ?_, hc'.usedLe⟩
           intro k hk
           simp only [Mem.store]
           unfold Disj at hd
@@ -609,6 +905,434 @@ theorem step_good (s : St) (op : Op) (hG : Good s) : Good (step s op) := by
         rw [mem_below] at hc
         exact (hG.blocks c hc.1).frame r3 (by simp only [r2]; exact hc.2) (fun i hi => r6 i (by omega))
       · exact ⟨hG.inv, hG.blocks, hG.disj⟩
+  | sReserve id additional exact => exact good_strReserve s hG id additional exact
+  | sPush id src => exact good_strPush s hG id src
+  | sShrink id => exact good_strShrink s hG id
+  | sClear id =>
+    simp only [step]
+    exact good_strWrite s hG id _ 0 (fun b _ => ⟨Nat.zero_le _, fun _ _ => rfl⟩)
+  | sReplace id lo hi src => exact good_strReplaceWith pinnedRule pinnedRule_fits s hG id lo hi src
+  | sOnce id old new =>
+    simp only [step]
+    split
+    · exact hG
+    · exact good_strReplaceWith pinnedRule pinnedRule_fits s hG id _ _ new
+
+
+/-! #### what each string operation computes -/
+
+/-- Reserving never changes the string. -/
+theorem strEnsure_content (s : St) (hG : Good s) (id newCap : Nat) (s1 : St)
+    (h : strEnsure s id newCap = some s1) : strContent s1 id = strContent s id := by
+  obtain ⟨_, hd, hdata, _⟩ := strEnsure_spec s hG id newCap s1 h
+  cases hf : findBlk s.live id with
+  | none =>
+    apply list_eq_of_getD
+    · rw [strContent_length, strContent_length, hd]
+    · intro k hk
+      rw [strContent_length, hd, strDims_none s id hf] at hk
+      exact absurd hk (Nat.not_lt_zero _)
+  | some b =>
+    have hb := hG.blocks b (findBlk_mem hf)
+    rw [strDims_of s id b hf] at hd
+    cases hf1 : findBlk s1.live id with
+    | none =>
+      rw [strDims_none s1 id hf1] at hd
+      have hu : b.used = 0 := (congrArg Prod.snd hd).symm
+      apply list_eq_of_getD
+      · rw [strContent_length, strContent_length, strDims_none s1 id hf1, strDims_of s id b hf]; exact hu.symm
+      · intro k hk
+        rw [strContent_length, strDims_none s1 id hf1] at hk
+        exact absurd hk (Nat.not_lt_zero _)
+    | some b1 =>
+      rw [strDims_of s1 id b1 hf1] at hd
+      rw [strContent_of s1 id b1 hf1, strContent_of s id b hf]
+      exact content_eq_of b b1 (congrArg Prod.snd hd) (fun k hk => hdata b b1 hf hf1 k (by have := hb.usedLe; omega))
+
+/-- `reserve` / `reserve_exact`: either the allocator refuses (the process aborts, nothing changed),
+or the capacity is exactly what std's policy says, `additional` more bytes fit behind the length,
+and the string is unchanged. -/
+theorem str_reserve_spec (s : St) (hG : Good s) (id additional : Nat) (exact : Bool) :
+    let cap := (strDims s id).1
+    let len := (strDims s id).2
+    let want := if exact then reserveExactCap cap len additional else reserveCap cap len additional
+    let s' := step s (.sReserve id additional exact)
+    (strEnsure s id want = none ∧ s' = s) ∨
+    (strDims s' id = (want, len) ∧ len + additional ≤ want ∧ strContent s' id = strContent s id) := by
+  intro cap len want s'
+  have hle : len ≤ cap := good_dims s hG id
+  have hw : cap ≤ want ∧ len + additional ≤ want := by
+    show cap ≤ (if exact then _ else _) ∧ len + additional ≤ (if exact then _ else _)
+    cases exact
+    · have := reserveCap_spec cap len additional
+      simp only [Bool.false_eq_true, if_false]; exact ⟨this.1, this.2.1 hle⟩
+    · have := reserveExactCap_spec cap len additional hle
+      simp only [if_true]; exact ⟨this.1, this.2.1⟩
+  cases h : strEnsure s id want with
+  | none =>
+    left
+    refine ⟨rfl, ?_⟩
+    show St.strReserve s id additional exact = s
+    unfold St.strReserve
+    simp only []
+    rw [show strEnsure s id (if exact then reserveExactCap (strDims s id).1 (strDims s id).2 additional
+        else reserveCap (strDims s id).1 (strDims s id).2 additional) = none from h]
+  | some s1 =>
+    right
+    have e : s' = s1 := by
+      show St.strReserve s id additional exact = s1
+      unfold St.strReserve
+      simp only []
+      rw [show strEnsure s id (if exact then reserveExactCap (strDims s id).1 (strDims s id).2 additional
+          else reserveCap (strDims s id).1 (strDims s id).2 additional) = some s1 from h]
+    obtain ⟨_, hd, _, _⟩ := strEnsure_spec s hG id want s1 h
+    rw [e]
+    refine ⟨?_, hw.2, strEnsure_content s hG id want s1 h⟩
+    rw [hd, Nat.max_eq_right hw.1]
+
+/-- `push_str(src)` (and `push`, `push_repeat`): either the allocator refuses, or the string is the
+old one followed by `src`, and it lies within the capacity std's policy gives. -/
+theorem str_push_spec (s : St) (hG : Good s) (id : Nat) (src : List Nat) :
+    let cap := (strDims s id).1
+    let len := (strDims s id).2
+    let want := reserveCap cap len src.length
+    let s' := step s (.sPush id src)
+    (strEnsure s id want = none ∧ s' = s) ∨
+    (strContent s' id = strContent s id ++ src ∧ strDims s' id = (want, len + src.length) ∧
+     len + src.length ≤ want) := by
+  intro cap len want s'
+  have hle : len ≤ cap := good_dims s hG id
+  have hw := reserveCap_spec cap len src.length
+  have hfit : len + src.length ≤ want := hw.2.1 hle
+  have hs' : s' = match strEnsure s id want with
+      | none => s
+      | some s1 => strWrite s1 id (fun beg m => m.store (beg + len) src.length (srcAt src.toArray)) (len + src.length) := by
+    show St.strPush s id src = _
+    unfold St.strPush
+    rfl
+  cases h : strEnsure s id want with
+  | none => left; rw [hs', h]; exact ⟨rfl, rfl⟩
+  | some s1 =>
+    right
+    rw [h] at hs'
+    simp only [] at hs'
+    obtain ⟨hG1, hd, _, _⟩ := strEnsure_spec s hG id want s1 h
+    have hc1 := strEnsure_content s hG id want s1 h
+    rw [Nat.max_eq_right hw.1] at hd
+    cases hf1 : findBlk s1.live id with
+    | none =>
+      rw [strDims_none s1 id hf1] at hd
+      have h0 : want = 0 := (congrArg Prod.fst hd).symm
+      have hl0 : len = 0 := (congrArg Prod.snd hd).symm
+      have hn : src.length = 0 := by omega
+      have hsrc : src = [] := List.eq_nil_of_length_eq_zero hn
+      rw [hs', strWrite_none s1 id _ _ hf1, hc1, hsrc, strDims_none s1 id hf1, h0, hl0]
+      exact ⟨(List.append_nil _).symm, rfl, Nat.le_refl _⟩
+    | some b1 =>
+      rw [strDims_of s1 id b1 hf1] at hd
+      have hcap : b1.len = want := congrArg Prod.fst hd
+      have hused : b1.used = len := congrArg Prod.snd hd
+      have hb1 := hG1.blocks b1 (findBlk_mem hf1)
+      have hblk := strWrite_blk s1 id (fun beg m => m.store (beg + len) src.length (srcAt src.toArray))
+        (len + src.length) b1 hf1
+      rw [← hs'] at hblk
+      refine ⟨?_, ?_, hfit⟩
+      · rw [strContent_of s' id _ hblk, ← hc1, strContent_of s1 id b1 hf1]
+        apply list_eq_of_getD
+        · simp [content_length, hused]
+        · intro k hk
+          rw [content_length] at hk
+          simp only [] at hk
+          rw [content_getD _ k hk, getD_append, content_length, hused]
+          simp only [Mem.store]
+          by_cases hk1 : k < len
+          · rw [if_neg (by omega), if_pos hk1, content_getD b1 k (by omega)]
+            exact hb1.content k (by omega)
+          · rw [if_pos (by omega), if_neg hk1, srcAt_toArray]
+            congr 1; omega
+      · rw [strDims_of s' id _ hblk]
+        simp only [hcap]
+
+/-- `replace_range(lo..hi, src)` (= `vec_replace_impl`, pinned code): the range is clamped to the
+string; either the allocator refuses, or the string is `take off ++ src ++ drop (off + del)` of the
+old one, its length is within the capacity, and the capacity is what `reserve(src_len - del_len)`
+gives by std's policy — in particular every byte the raw copies wrote lies inside the buffer. -/
+theorem str_replace_spec (s : St) (hG : Good s) (id lo hi : Nat) (src : List Nat) :
+    let c := strContent s id
+    let cap := (strDims s id).1
+    let off := min lo c.length
+    let del := min (hi - off) (c.length - off)
+    let want := reserveCap cap c.length (src.length - del)
+    let s' := step s (.sReplace id lo hi src)
+    (strEnsure s id want = none ∧ s' = s) ∨
+    (strContent s' id = replaceBytes c off del src ∧
+     strDims s' id = (want, c.length - del + src.length) ∧ c.length - del + src.length ≤ want) := by
+  intro c cap off del want s'
+  have hlen : c.length = (strDims s id).2 := strContent_length s id
+  have hle : c.length ≤ cap := by rw [hlen]; exact good_dims s hG id
+  have hw := reserveCap_spec cap c.length (src.length - del)
+  have hoff : off ≤ c.length := Nat.min_le_right _ _
+  have hdel : off + del ≤ c.length := by
+    have : del ≤ c.length - off := Nat.min_le_right _ _
+    omega
+  have hfit : c.length - del + src.length ≤ want := by have := hw.2.1 hle; omega
+  have hs' : s' = if del = 0 ∧ src.length = 0 then s else
+      match strEnsure s id want with
+      | none => s
+      | some s1 => strWrite s1 id
+          (fun beg m => (m.copy (beg + off + del) (beg + off + src.length) (c.length - off - del)).store
+            (beg + off) src.length (srcAt src.toArray)) (c.length - del + src.length) := by
+    show St.strReplaceWith pinnedRule s id lo hi src = _
+    unfold St.strReplaceWith pinnedRule
+    simp only [← hlen]
+    rfl
+  by_cases h0 : del = 0 ∧ src.length = 0
+  · -- nothing to do
+    right
+    rw [hs', if_pos h0]
+    have hsrc : src = [] := List.eq_nil_of_length_eq_zero h0.2
+    have hwant : want = cap := hw.2.2 (by omega)
+    refine ⟨?_, ?_, hfit⟩
+    · rw [hsrc, h0.1]; simp [replaceBytes]; rfl
+    · rw [hwant, h0.1, h0.2]
+      show strDims s id = (cap, c.length - 0 + 0)
+      rw [hlen]
+      exact Prod.ext rfl (by simp)
+  · rw [if_neg h0] at hs'
+    cases h : strEnsure s id want with
+    | none => left; rw [hs', h]; exact ⟨rfl, rfl⟩
+    | some s1 =>
+      right
+      rw [h] at hs'
+      simp only [] at hs'
+      obtain ⟨hG1, hd, _, _⟩ := strEnsure_spec s hG id want s1 h
+      have hc1 := strEnsure_content s hG id want s1 h
+      rw [Nat.max_eq_right hw.1] at hd
+      cases hf1 : findBlk s1.live id with
+      | none =>
+        -- no buffer after a successful reservation: the result is empty, so there was nothing to do
+        rw [strDims_none s1 id hf1] at hd
+        have hwant0 : want = 0 := (congrArg Prod.fst hd).symm
+        exfalso
+        apply h0
+        omega
+      | some b1 =>
+        rw [strDims_of s1 id b1 hf1] at hd
+        have hcap : b1.len = want := congrArg Prod.fst hd
+        have hused : b1.used = c.length := by rw [hlen]; exact congrArg Prod.snd hd
+        have hb1 := hG1.blocks b1 (findBlk_mem hf1)
+        have hblk := strWrite_blk s1 id
+          (fun beg m => (m.copy (beg + off + del) (beg + off + src.length) (c.length - off - del)).store
+            (beg + off) src.length (srcAt src.toArray)) (c.length - del + src.length) b1 hf1
+        rw [← hs'] at hblk
+        have hcb : c = b1.content := by rw [← strContent_of s1 id b1 hf1, hc1]
+        refine ⟨?_, ?_, hfit⟩
+        · rw [strContent_of s' id _ hblk]
+          apply list_eq_of_getD
+          · rw [content_length, replaceBytes_length c off del src hdel]
+          · intro k hk
+            rw [content_length] at hk
+            simp only [] at hk
+            rw [content_getD _ k hk, replaceBytes_getD c off del src hdel k]
+            simp only [Mem.store, Mem.copy]
+            by_cases hk1 : k < off
+            · rw [if_neg (by omega), if_neg (by omega), if_pos hk1, hcb, content_getD b1 k (by omega)]
+              exact hb1.content k (by omega)
+            · by_cases hk2 : k < off + src.length
+              · rw [if_pos (by omega), if_neg hk1, if_pos hk2, srcAt_toArray]
+                congr 1; omega
+              · rw [if_neg (by omega), if_pos (by omega), if_neg hk1, if_neg hk2, hcb,
+                  content_getD b1 _ (by omega)]
+                have e : b1.beg + off + del + (b1.beg + k - (b1.beg + off + src.length)) =
+                    b1.beg + (k - src.length + del) := by omega
+                rw [e]
+                exact hb1.content _ (by omega)
+        · rw [strDims_of s' id _ hblk]
+          simp only [hcap]
+
+/-! `str::find` -/
+
+/-- `findSub` is `str::find`: the index of the FIRST occurrence (so the slice `r .. r + |needle|`
+exists), `none` exactly when the needle occurs nowhere. -/
+theorem findSub_spec (hay needle : List Nat) :
+    (∀ r, findSub hay needle = some r →
+      needle <+: hay.drop r ∧ r + needle.length ≤ hay.length ∧ ∀ j, j < r → ¬ needle <+: hay.drop j) ∧
+    (findSub hay needle = none → ∀ j, ¬ needle <+: hay.drop j) := by
+  refine ⟨?_, findSubFrom_none needle hay 0⟩
+  intro r h
+  obtain ⟨_, h2, h3⟩ := findSubFrom_some needle hay 0 r h
+  rw [Nat.sub_zero] at h2 h3
+  refine ⟨h2, ?_, h3⟩
+  have := h2.length_le
+  rw [List.length_drop] at this
+  by_cases hr : r ≤ hay.length
+  · omega
+  · have hnil : needle = [] := by
+      have : hay.drop r = [] := List.drop_eq_nil_of_le (by omega)
+      rw [this] at h2
+      exact List.prefix_nil.1 h2
+    -- an empty needle is found at the first position it is tried at, which is ≤ the length
+    exfalso
+    subst hnil
+    have h0 := h3 0
+    simp at h0
+    omega
+
+example : findSub [1, 2, 3, 2, 3] [2, 3] = some 1 ∧ findSub [1, 2] [] = some 0 ∧ findSub [] [] = some 0 ∧
+    findSub [1, 2, 3] [3, 4] = none ∧ findSub [1, 2, 3] [3] = some 2 := by decide
+
+/-- `replace_once_in_place(old, new)` is by definition `find` followed by `replace_range` at the
+index found (the form the driver executes). -/
+theorem step_sOnce (s : St) (id : Nat) (old new : List Nat) :
+    step s (.sOnce id old new) =
+      match findSub (strContent s id) old with
+      | none => s
+      | some i => step s (.sReplace id i (i + old.length) new) := by
+  simp only [step]
+  rfl
+
+/-- `replace_once_in_place`: nothing happens when `old` does not occur; otherwise (unless the
+allocator refuses) the FIRST occurrence — and only it — is replaced, within the capacity. -/
+theorem str_once_spec (s : St) (hG : Good s) (id : Nat) (old new : List Nat) :
+    let c := strContent s id
+    let s' := step s (.sOnce id old new)
+    (findSub c old = none → s' = s) ∧
+    (∀ r, findSub c old = some r →
+      let want := reserveCap (strDims s id).1 c.length (new.length - old.length)
+      (strEnsure s id want = none ∧ s' = s) ∨
+      (strContent s' id = c.take r ++ new ++ c.drop (r + old.length) ∧
+       strDims s' id = (want, c.length - old.length + new.length) ∧
+       c.length - old.length + new.length ≤ want)) := by
+  intro c s'
+  constructor
+  · intro h
+    show step s (.sOnce id old new) = s
+    rw [step_sOnce, h]
+  · intro r h
+    have hr := ((findSub_spec c old).1 r h).2.1
+    have e : s' = step s (.sReplace id r (r + old.length) new) := by
+      show step s (.sOnce id old new) = _
+      rw [step_sOnce, h]
+    have := str_replace_spec s hG id r (r + old.length) new
+    simp only [] at this
+    have e1 : min r c.length = r := Nat.min_eq_left (by omega)
+    have e2 : min (r + old.length - r) (c.length - r) = old.length := by
+      rw [Nat.add_sub_cancel_left]; exact Nat.min_eq_left (by omega)
+    rw [e1, e2] at this
+    rw [e]
+    exact this
+
+/-! clean failure, `clear`, `shrink_to_fit` -/
+
+/-- An operation that ends in `handle_alloc_error` has changed nothing. -/
+theorem step_abort_clean (s : St) (op : Op) (h : aborts s op = true) : step s op = s := by
+  cases op with
+  | sReserve id additional exact =>
+    simp only [aborts, Option.isNone_iff_eq_none] at h
+    simp only [step, St.strReserve, h]
+  | sPush id src =>
+    simp only [aborts, Option.isNone_iff_eq_none] at h
+    simp only [step, St.strPush, h]
+  | sReplace id lo hi src =>
+    simp only [aborts, Bool.and_eq_true, Option.isNone_iff_eq_none] at h
+    simp only [step, St.strReplaceWith, h.2]
+    split <;> rfl
+  | sOnce id old new =>
+    simp only [aborts] at h
+    simp only [step]
+    split
+    · rfl
+    · rename_i r hr
+      rw [hr] at h
+      simp only [Bool.and_eq_true, Option.isNone_iff_eq_none] at h
+      simp only [St.strReplaceWith, h.2]
+      split <;> rfl
+  | _ => simp [aborts] at h
+
+/-- `clear()`: the string is empty, the buffer (its capacity, its place) stays. -/
+theorem str_clear_spec (s : St) (id : Nat) :
+    strContent (step s (.sClear id)) id = [] ∧
+    strDims (step s (.sClear id)) id = ((strDims s id).1, 0) := by
+  simp only [step]
+  cases hf : findBlk s.live id with
+  | none => rw [strWrite_none s id _ _ hf]; simp [strContent, strDims, hf]
+  | some b =>
+    have := strWrite_blk s id (fun _ m => m) 0 b hf
+    rw [strContent_of _ id _ this, strDims_of _ id _ this, strDims_of s id b hf]
+    simp [Block.content]
+
+/-- `shrink_to_fit()`: the string is unchanged; afterwards the capacity equals the length when the
+buffer is the tail block (then the arena's offset drops to the end of the string) or the string is
+empty (the buffer is given up); a buffer that is not the tail is left alone (in a debug build the
+arena asserts; the protocol does not make that call). -/
+theorem str_shrink_spec (s : St) (hG : Good s) (id : Nat) :
+    let s' := step s (.sShrink id)
+    strContent s' id = strContent s id ∧ (strDims s' id).2 = (strDims s id).2 ∧
+    (∀ b, findBlk s.live id = some b → b.used = 0 ∨ b.beg + b.len = s.a.offset →
+      (strDims s' id).1 = b.used ∧ (0 < b.used → s'.a.offset = b.beg + b.used)) := by
+  intro s'
+  have hs' : s' = St.strShrink s id := rfl
+  cases hf : findBlk s.live id with
+  | none =>
+    have : s' = s := by rw [hs']; unfold St.strShrink; rw [hf]
+    rw [this]
+    exact ⟨rfl, rfl, fun b hb => by cases hb⟩
+  | some b =>
+    have hb := hG.blocks b (findBlk_mem hf)
+    have hid : b.id = id := by simpa using List.find?_some hf
+    unfold St.strShrink at hs'
+    rw [hf] at hs'
+    simp only [] at hs'
+    by_cases h1 : b.len ≤ b.used
+    · rw [if_pos h1] at hs'
+      rw [hs']
+      refine ⟨rfl, rfl, ?_⟩
+      intro b' hb' _
+      cases hb'
+      rw [strDims_of s id b hf]
+      have := hb.usedLe
+      have := hb.inb
+      exact ⟨by simp only []; omega, fun _ => by omega⟩
+    · rw [if_neg h1] at hs'
+      by_cases h2 : b.used = 0
+      · rw [if_pos h2] at hs'
+        have hblk : findBlk s'.live id = some { b with len := 0 } := by
+          rw [hs']
+          simp [findBlk, hid]
+        rw [strContent_of s' id _ hblk, strDims_of s' id _ hblk, strContent_of s id b hf, strDims_of s id b hf]
+        refine ⟨by simp [Block.content], rfl, ?_⟩
+        intro b' hb' _
+        cases hb'
+        exact ⟨h2.symm, fun h => by omega⟩
+      · rw [if_neg h2] at hs'
+        unfold St.shrinkBlk at hs'
+        rw [hf] at hs'
+        simp only [] at hs'
+        by_cases ht : b.beg + b.len = s.a.offset
+        · have hg : b.used ≤ b.len ∧ b.beg + b.len = s.a.offset ∧ b.used ≤ b.used :=
+            ⟨hb.usedLe, ht, Nat.le_refl _⟩
+          rw [if_pos hg] at hs'
+          have hblk : findBlk s'.live id = some { b with len := b.used } := by
+            rw [hs']
+            simp [findBlk, hid]
+          rw [strContent_of s' id _ hblk, strDims_of s' id _ hblk, strContent_of s id b hf, strDims_of s id b hf]
+          refine ⟨by simp [Block.content], rfl, ?_⟩
+          intro b' hb' _
+          cases hb'
+          refine ⟨rfl, fun _ => ?_⟩
+          rw [hs']
+          have := (shrink_tail s.a b.beg b.len b.used hG.inv ht hb.usedLe).2.1
+          exact this
+        · have hg : ¬ (b.used ≤ b.len ∧ b.beg + b.len = s.a.offset ∧ b.used ≤ b.used) := fun h => ht h.2.1
+          rw [if_neg hg] at hs'
+          rw [hs']
+          refine ⟨rfl, rfl, ?_⟩
+          intro b' hb' hor
+          cases hb'
+          rcases hor with h | h
+          · exact absurd h h2
+          · exact absurd h ht
+
 
 theorem run_good (ops : List Op) : ∀ s, Good s → Good (run s ops) := by
   induction ops with
@@ -664,35 +1388,82 @@ theorem reset_base_cap (a : Arena) (to : Nat) : (a.reset to).base = a.base ∧ (
 theorem decommit_base_cap (a : Arena) : a.decommit.base = a.base ∧ a.decommit.cap = a.cap := by
   unfold Arena.decommit; simp only []; split <;> exact ⟨rfl, rfl⟩
 
+theorem allocBlk_base_cap (s : St) (id bytes align : Nat) (zeroed : Bool) :
+    (s.allocBlk id bytes align zeroed).a.base = s.a.base ∧ (s.allocBlk id bytes align zeroed).a.cap = s.a.cap := by
+  simp only [St.allocBlk]
+  split
+  · exact ⟨rfl, rfl⟩
+  · split
+    · exact ⟨rfl, rfl⟩
+    · rename_i beg a' h
+      cases zeroed with
+      | false => simp only [Bool.false_eq_true, if_false] at h; exact alloc_base_cap h
+      | true => simp only [if_true] at h; exact allocZeroed_base_cap h
+
+theorem growBlk_base_cap (s : St) (id newSize : Nat) :
+    (s.growBlk id newSize).a.base = s.a.base ∧ (s.growBlk id newSize).a.cap = s.a.cap := by
+  simp only [St.growBlk]
+  split
+  · exact ⟨rfl, rfl⟩
+  · split
+    · exact ⟨rfl, rfl⟩
+    · split
+      · exact ⟨rfl, rfl⟩
+      · rename_i nb a' h; exact grow_base_cap h
+
+theorem shrinkBlk_base_cap (s : St) (id newSize : Nat) :
+    (s.shrinkBlk id newSize).a.base = s.a.base ∧ (s.shrinkBlk id newSize).a.cap = s.a.cap := by
+  simp only [St.shrinkBlk]
+  split
+  · exact ⟨rfl, rfl⟩
+  · split
+    · unfold Arena.shrink; dsimp only; split <;> exact ⟨rfl, rfl⟩
+    · exact ⟨rfl, rfl⟩
+
+theorem strEnsure_base_cap (s : St) (id newCap : Nat) (s1 : St) (h : strEnsure s id newCap = some s1) :
+    s1.a.base = s.a.base ∧ s1.a.cap = s.a.cap := by
+  unfold strEnsure at h
+  split at h
+  · split at h
+    · cases h; exact ⟨rfl, rfl⟩
+    · split at h
+      · cases h; exact allocBlk_base_cap s id newCap 1 false
+      · cases h
+  · split at h
+    · cases h; exact ⟨rfl, rfl⟩
+    · split at h
+      · cases h; exact growBlk_base_cap s id newCap
+      · cases h
+
+theorem strWrite_base_cap (s : St) (id : Nat) (w : Nat → Mem → Mem) (used' : Nat) :
+    (strWrite s id w used').a.base = s.a.base ∧ (strWrite s id w used').a.cap = s.a.cap := by
+  unfold strWrite
+  split <;> exact ⟨rfl, rfl⟩
+
+theorem strReplaceWith_base_cap (rule : Nat → Nat → Nat → Nat → Nat) (s : St) (id lo hi : Nat) (src : List Nat) :
+    (s.strReplaceWith rule id lo hi src).a.base = s.a.base ∧ (s.strReplaceWith rule id lo hi src).a.cap = s.a.cap := by
+  unfold St.strReplaceWith
+  simp only []
+  split
+  · exact ⟨rfl, rfl⟩
+  · split
+    · exact ⟨rfl, rfl⟩
+    · rename_i s1 h
+      have h1 := strWrite_base_cap s1 id
+        (fun beg m => (m.copy (beg + min lo (strDims s id).2 + min (hi - min lo (strDims s id).2) ((strDims s id).2 - min lo (strDims s id).2))
+          (beg + min lo (strDims s id).2 + src.length)
+          ((strDims s id).2 - min lo (strDims s id).2 - min (hi - min lo (strDims s id).2) ((strDims s id).2 - min lo (strDims s id).2))).store
+            (beg + min lo (strDims s id).2) src.length (srcAt src.toArray))
+        ((strDims s id).2 - min (hi - min lo (strDims s id).2) ((strDims s id).2 - min lo (strDims s id).2) + src.length)
+      have h2 := strEnsure_base_cap s id _ s1 h
+      exact ⟨h1.1.trans h2.1, h1.2.trans h2.2⟩
+
 theorem step_base_cap (s : St) (op : Op) :
     (step s op).a.base = s.a.base ∧ (step s op).a.cap = s.a.cap := by
   cases op with
-  | alloc id bytes align zeroed =>
-    simp only [step]
-    split
-    · exact ⟨rfl, rfl⟩
-    · split
-      · exact ⟨rfl, rfl⟩
-      · rename_i beg a' h
-        cases zeroed with
-        | false => simp only [Bool.false_eq_true, if_false] at h; exact alloc_base_cap h
-        | true => simp only [if_true] at h; exact allocZeroed_base_cap h
-  | grow id newSize =>
-    simp only [step]
-    split
-    · exact ⟨rfl, rfl⟩
-    · split
-      · exact ⟨rfl, rfl⟩
-      · split
-        · exact ⟨rfl, rfl⟩
-        · rename_i nb a' h; exact grow_base_cap h
-  | shrink id newSize =>
-    simp only [step]
-    split
-    · exact ⟨rfl, rfl⟩
-    · split
-      · unfold Arena.shrink; dsimp only; split <;> exact ⟨rfl, rfl⟩
-      · exact ⟨rfl, rfl⟩
+  | alloc id bytes align zeroed => exact allocBlk_base_cap s id bytes align zeroed
+  | grow id newSize => exact growBlk_base_cap s id newSize
+  | shrink id newSize => exact shrinkBlk_base_cap s id newSize
   | store id f =>
     simp only [step]
     split <;> exact ⟨rfl, rfl⟩
@@ -713,6 +1484,36 @@ theorem step_base_cap (s : St) (op : Op) :
         have h2 := reset_base_cap s.a ‹Nat›
         exact ⟨h1.1.trans h2.1, h1.2.trans h2.2⟩
       · exact ⟨rfl, rfl⟩
+  | sReserve id additional exact =>
+    simp only [step, St.strReserve]
+    split
+    · exact ⟨rfl, rfl⟩
+    · rename_i s1 h; exact strEnsure_base_cap s id _ s1 h
+  | sPush id src =>
+    simp only [step, St.strPush]
+    split
+    · exact ⟨rfl, rfl⟩
+    · rename_i s1 h
+      have h1 := strWrite_base_cap s1 id
+        (fun beg m => m.store (beg + (strDims s id).2) src.length (srcAt src.toArray)) ((strDims s id).2 + src.length)
+      have h2 := strEnsure_base_cap s id _ s1 h
+      exact ⟨h1.1.trans h2.1, h1.2.trans h2.2⟩
+  | sShrink id =>
+    simp only [step, St.strShrink]
+    split
+    · exact ⟨rfl, rfl⟩
+    · split
+      · exact ⟨rfl, rfl⟩
+      · split
+        · exact ⟨rfl, rfl⟩
+        · exact shrinkBlk_base_cap s id _
+  | sClear id => simp only [step]; exact strWrite_base_cap s id _ 0
+  | sReplace id lo hi src => exact strReplaceWith_base_cap pinnedRule s id lo hi src
+  | sOnce id old new =>
+    simp only [step]
+    split
+    · exact ⟨rfl, rfl⟩
+    · exact strReplaceWith_base_cap pinnedRule s id _ _ new
 
 theorem run_base_cap (ops : List Op) : ∀ s, (run s ops).a.base = s.a.base ∧ (run s ops).a.cap = s.a.cap := by
   induction ops with
@@ -729,11 +1530,15 @@ theorem disj_no_common_byte (b c : Block) (h : Disj b c) (i : Nat) :
   unfold Disj at h; omega
 
 /-- **C11 for all histories.** After any sequence of allocate (any size / non-zero alignment),
-zeroed allocation, grow, shrink, client writes, reset-to-mark, decommit and nested scratch
-borrow/release on a fresh arena: the arena invariant holds; every live block (= handed out and not
-given back by a reset/release below its end) lies inside the committed prefix of the reservation,
-is aligned *absolutely* as requested, still holds exactly what its owner last wrote (a grown block:
-its old contents in the old prefix); and live blocks are pairwise disjoint. -/
+zeroed allocation, grow, shrink, client writes, reset-to-mark, decommit, nested scratch
+borrow/release AND the `ArenaString` operations (reserve, reserve_exact, push_str / push /
+push_repeat, shrink_to_fit, clear, replace_range, replace_once_in_place — whose raw writes the model
+does not confine to the buffer) on a fresh arena: the arena invariant holds; every live block (=
+handed out and not given back by a reset/release below its end) lies inside the committed prefix of
+the reservation, is aligned *absolutely* as requested, still holds exactly what its owner last wrote
+(a grown block: its old contents in the old prefix; a string buffer: all `capacity` bytes as the
+string operations left them), a string's length never exceeds its capacity (= the size of the block
+the arena handed out for it); and live blocks are pairwise disjoint. -/
 theorem c11_history (base capacity : Nat) (ops : List Op) :
     (run (St.init base capacity) ops).a.Inv ∧
     (run (St.init base capacity) ops).a.base = base ∧
@@ -743,7 +1548,8 @@ theorem c11_history (base capacity : Nat) (ops : List Op) :
         (run (St.init base capacity) ops).a.offset ≤ (run (St.init base capacity) ops).a.commit ∧
         (run (St.init base capacity) ops).a.commit ≤ (run (St.init base capacity) ops).a.cap ∧
         0 < b.align ∧ b.align ∣ base + b.beg ∧
-        ∀ k, k < b.len → (run (St.init base capacity) ops).a.mem (b.beg + k) = b.data k) ∧
+        (∀ k, k < b.len → (run (St.init base capacity) ops).a.mem (b.beg + k) = b.data k) ∧
+        b.used ≤ b.len) ∧
     (run (St.init base capacity) ops).live.Pairwise Disj := by
   have hG := run_good ops _ (init_good base capacity)
   have hb := run_base_cap ops (St.init base capacity)
@@ -751,21 +1557,21 @@ theorem c11_history (base capacity : Nat) (ops : List Op) :
   intro b hbm
   have h := hG.blocks b hbm
   have e : (run (St.init base capacity) ops).a.base = base := hb.1
-  exact ⟨h.inb, hG.inv.offLe, hG.inv.commitLe, h.apos, by rw [← e]; exact h.aligned, h.content⟩
+  exact ⟨h.inb, hG.inv.offLe, hG.inv.commitLe, h.apos, by rw [← e]; exact h.aligned, h.content, h.usedLe⟩
 
 /-- Clean failure at the level of histories: a failing allocation / grow leaves the whole client
 state (arena and every live block) exactly as it was. -/
 theorem step_alloc_fail (s : St) (id bytes align : Nat) (zeroed : Bool)
     (h : (if zeroed then s.a.allocZeroed bytes align else s.a.alloc bytes align) = none) :
     step s (.alloc id bytes align zeroed) = s := by
-  simp only [step]
+  simp only [step, St.allocBlk]
   split
   · rfl
   · rw [h]
 
 theorem step_grow_fail (s : St) (id newSize : Nat) (b : Block) (hf : findBlk s.live id = some b)
     (h : s.a.grow b.beg b.len newSize b.align = none) : step s (.grow id newSize) = s := by
-  simp only [step, hf]
+  simp only [step, St.growBlk, hf]
   split
   · rfl
   · rw [h]
@@ -776,7 +1582,7 @@ theorem step_grow_data (s : St) (id newSize nb : Nat) (b : Block) (a' : Arena)
     (h : s.a.grow b.beg b.len newSize b.align = some (nb, a')) :
     ∃ nbk rest, (step s (.grow id newSize)).live = nbk :: rest ∧ nbk.id = id ∧ nbk.beg = nb ∧
       nbk.len = newSize ∧ ∀ k, k < b.len → nbk.data k = b.data k := by
-  simp only [step, hf, h]
+  simp only [step, St.growBlk, hf, h]
   split
   · omega
   · refine ⟨_, _, rfl, rfl, rfl, rfl, ?_⟩
@@ -799,5 +1605,63 @@ example :
       [(0, 4112, 350, 8), (1, 4096, 16, 8192)] ∧
     (run (St.init 4096 65536) (demoOps.take 10)).a.offset = 4462 ∧
     (run (St.init 4096 65536) demoOps).a.commit = 65536 := by decide
+
+/-! ### Seeded change C11-c2, refuted on the model
+
+`vec_replace_impl` with the reserve request of the seeded change (`reserve(new_len - capacity)`) is
+the same definition as the pinned one with `seededRule` in place of `pinnedRule`.  With the pinned
+rule the invariant is preserved (`good_strReplaceWith pinnedRule pinnedRule_fits`, used by
+`step_good`); with the seeded rule it is not: a string of capacity 16 and length 10 followed by a
+32-byte block, one byte replaced by nine.  The result has 18 bytes in a 16-byte buffer (`len >
+capacity`), bytes 16 and 17 of the result (the end of the shifted tail) are written into the
+neighbouring block. -/
+
+def seededDemo : St :=
+  (run (St.init 0 65536)
+    [.alloc 0 16 1 false, .sPush 0 [48, 49, 50, 51, 52, 53, 54, 55, 56, 57], .alloc 1 32 1 false,
+     .store 1 (fun _ => 0xB2)]).strReplaceWith seededRule 0 0 1 [65, 66, 67, 68, 69, 70, 71, 72, 73]
+
+/-- The claim that the seeded `vec_replace_impl` keeps the invariant … -/
+def c11_seeded_replace_safe : Prop :=
+  ∀ (s : St) (id lo hi : Nat) (src : List Nat), Good s → Good (s.strReplaceWith seededRule id lo hi src)
+
+/-- … is false. -/
+theorem c11_seeded_replace_safe_is_false : ¬ c11_seeded_replace_safe := by
+  intro h
+  have hG : Good seededDemo := h _ 0 0 1 _ (run_good _ _ (init_good 0 65536))
+  have h1 : seededDemo.live.all (fun b => decide (b.used ≤ b.len)) = true :=
+    List.all_eq_true.2 (fun b hb => decide_eq_true (hG.blocks b hb).usedLe)
+  have h2 : seededDemo.live.all (fun b => decide (b.used ≤ b.len)) = false := by decide
+  rw [h1] at h2
+  cases h2
+
+example :
+    seededDemo.live.map (fun b => (b.id, b.beg, b.len, b.used)) = [(0, 0, 16, 18), (1, 16, 32, 0)] ∧
+    -- the neighbour's first two bytes are now '8' '9' (the end of the shifted tail)
+    seededDemo.a.mem 16 = 56 ∧ seededDemo.a.mem 17 = 57 ∧ seededDemo.a.mem 18 = 0xB2 := by decide
+
+/-! Non-vacuity for the strings: the same situation under the pinned code (`step`): the string moves
+to a fresh 32-byte buffer behind the neighbour, which keeps its bytes; then a replacement that
+shrinks, one at the end, `replace_once_in_place`, `clear`, a reservation that does not fit (clean
+abort) and `shrink_to_fit` of the tail. -/
+
+def strDemoOps : List Op :=
+  [ .alloc 0 16 1 false, .sPush 0 [48, 49, 50, 51, 52, 53, 54, 55, 56, 57], .alloc 1 32 1 false,
+    .store 1 (fun _ => 0xB2), .sReplace 0 0 1 [65, 66, 67, 68, 69, 70, 71, 72, 73],
+    .sReplace 0 1 9 [], .sReplace 0 10 (2 ^ 64 - 1) [33], .sOnce 0 [50, 51] [120, 121, 122],
+    .sReserve 0 70000 true, .sShrink 0 ]
+
+example :
+    let s := run (St.init 0 65536) strDemoOps
+    let s5 := run (St.init 0 65536) (strDemoOps.take 5)
+    s5.live.map (fun b => (b.id, b.beg, b.len, b.used)) = [(0, 48, 32, 18), (1, 16, 32, 0)] ∧
+    strContent s5 0 = [65, 66, 67, 68, 69, 70, 71, 72, 73, 49, 50, 51, 52, 53, 54, 55, 56, 57] ∧
+    s5.a.mem 16 = 0xB2 ∧ s5.a.mem 47 = 0xB2 ∧
+    strContent (run (St.init 0 65536) (strDemoOps.take 6)) 0 = [65, 49, 50, 51, 52, 53, 54, 55, 56, 57] ∧
+    strContent (run (St.init 0 65536) (strDemoOps.take 7)) 0 = [65, 49, 50, 51, 52, 53, 54, 55, 56, 57, 33] ∧
+    strContent (run (St.init 0 65536) (strDemoOps.take 8)) 0 = [65, 49, 120, 121, 122, 52, 53, 54, 55, 56, 57, 33] ∧
+    aborts (run (St.init 0 65536) (strDemoOps.take 8)) (.sReserve 0 70000 true) = true ∧
+    s.live.map (fun b => (b.id, b.beg, b.len, b.used)) = [(0, 48, 12, 12), (1, 16, 32, 0)] ∧
+    s.a.offset = 60 := by decide
 
 end NaijaVerif.Bump
